@@ -142,6 +142,54 @@ pub proof fn lemma_comparisons_agree(a: int, b: int)
     (if a < b { 1int } else { 0int }) == (if a < b { 1int } else { 0int }),  // :ts_relational_equals_i32_signed_comparison
 {}
 
+// ---- (in)equality of values that are not both numbers
+// An enum value is either a tag-only variant — the number 2*tag+1 in both outputs (an i31 reference in WebAssembly) — or a
+// struct (a JavaScript array / a WebAssembly struct reference).  The tag test of a `match` is `v == <tag number>`:
+// TypeScript prints `Number(v == t)` (unit oparms: the token of EQ is `==`, JavaScript's LOOSE equality), WebAssembly `ref.eq`.
+pub enum RtValue {
+  /// a tag-only variant or a small integer held as a reference
+  Tag(int),
+  /// a struct with its fields (identity `id`: two structs are the same reference iff their ids are equal)
+  Struct { id: int, fields: Seq<int> },
+}
+/// WebAssembly `ref.eq`: two i31 references are equal iff their numbers are, two struct references iff they are the same
+/// object, an i31 and a struct never
+pub open spec fn wasm_ref_eq(a: RtValue, b: RtValue) -> bool {
+  match (a, b) {
+    (RtValue::Tag(x), RtValue::Tag(y)) => x == y,
+    (RtValue::Struct { id: i, .. }, RtValue::Struct { id: j, .. }) => i == j,
+    _ => false,
+  }
+}
+/// ECMA-262 7.2.14 IsLooselyEqual on these values: number == number compares the numbers, object == object identity, and
+/// object == number first converts the object with ToPrimitive: an array becomes the comma-joined text of its elements, which
+/// is then converted to a number — a one-element array [n] becomes n
+pub open spec fn js_loose_eq(a: RtValue, b: RtValue) -> bool {
+  match (a, b) {
+    (RtValue::Tag(x), RtValue::Tag(y)) => x == y,
+    (RtValue::Struct { id: i, .. }, RtValue::Struct { id: j, .. }) => i == j,
+    (RtValue::Struct { fields, .. }, RtValue::Tag(y)) => fields.len() == 1 && fields[0] == y,
+    (RtValue::Tag(x), RtValue::Struct { fields, .. }) => fields.len() == 1 && fields[0] == x,
+  }
+}
+/// C04 for tag tests, all values: NOT provable — the lemma after it is the witness
+pub proof fn lemma_tag_test_agrees_for_all_values(a: RtValue, b: RtValue)
+  ensures js_loose_eq(a, b) == wasm_ref_eq(a, b)  // :ts_loose_equality_equals_ref_eq_for_all_values
+{
+}
+pub proof fn lemma_one_field_struct_equals_its_field()
+  ensures js_loose_eq(RtValue::Struct { id: 7, fields: seq![3int] }, RtValue::Tag(3)) && !wasm_ref_eq(RtValue::Struct { id: 7, fields: seq![3int] }, RtValue::Tag(3))  // :witness_array_of_3_loosely_equals_3
+{
+}
+/// the restricted obligation: the two agree unless a struct with exactly one field meets a number
+pub proof fn lemma_tag_test_agrees_except_one_field_structs(a: RtValue, b: RtValue)
+  requires
+    !(a is Struct && b is Tag && a->fields.len() == 1),
+    !(b is Struct && a is Tag && b->fields.len() == 1),
+  ensures js_loose_eq(a, b) == wasm_ref_eq(a, b)  // :ts_loose_equality_equals_ref_eq_except_for_one_field_structs
+{
+}
+
 proof fn canary_must_fail_opsem() ensures false {}
 
 } // verus!
